@@ -236,7 +236,7 @@ func (w *World) ghostField(t types.Type, field string) *GhostField {
 }
 
 // functionsUnderContract lists the SSA functions of the loaded packages that have a (non-trusted) contract block.
-func (w *World) functionsUnderContract() ([]*ssa.Function, []string) {
+func (w *World) functionsUnderContract(sweep bool) ([]*ssa.Function, []string) {
 	var out []*ssa.Function
 	seen := map[*FuncSpec]bool{}
 	roots := map[*ssa.Package]bool{}
@@ -250,6 +250,10 @@ func (w *World) functionsUnderContract() ([]*ssa.Function, []string) {
 			continue
 		}
 		fs, ok := w.specs[fn.Pkg.Pkg.Path()+"::"+fn.RelString(fn.Pkg.Pkg)]
+		if !ok && sweep && len(fn.Blocks) > 0 && fn.Parent() == nil && !strings.HasSuffix(w.fset.Position(fn.Pos()).Filename, "_test.go") {
+			out = append(out, fn)
+			continue
+		}
 		if !ok || fs.Trusted {
 			continue
 		}
